@@ -1,1 +1,437 @@
+//! `opcensus`: the operator census (DESIGN §3.2).  The opcode space (single bytes and the
+//! 0xFC/0xFD/0xFE prefixed sub-opcodes) x a list of immediate instances x operand-type tuples is
+//! pushed through wasmparser 0.214 (decode prefilter, then the reference validator with
+//! walrus's documented default feature set).  Every accepted (operator, immediate instance) is a
+//! census entry; nothing is taken from walrus's own opcode tables.
 
+use crate::mb::{sleb_v, uleb, uleb_v};
+use std::collections::{BTreeMap, BTreeSet};
+use wmodel::{validate214, FeatureSet};
+
+const TYS: [u8; 7] = [0x7f, 0x7e, 0x7d, 0x7c, 0x7b, 0x70, 0x6f];
+
+fn sec(id: u8, body: Vec<u8>, out: &mut Vec<u8>) {
+    out.push(id);
+    uleb(body.len() as u64, out);
+    out.extend(body);
+}
+
+/// Scaffold: types t0 = (params)->(), t1 = ()->(), t2 = (i32)->(i32); funcs f0:t1, f1:t2,
+/// f2: the subject (type t0); tables: 0 funcref, 1 externref, 2 funcref 64-bit;
+/// memories: 0 32-bit, 1 64-bit; globals 0..6 mutable of every value type;
+/// elems: 0 passive funcref [f0], 1 passive externref [null]; data: 0 passive.
+pub fn module(params: &[u8], body: &[u8]) -> Vec<u8> {
+    let mut m = b"\0asm\x01\0\0\0".to_vec();
+    let mut t = vec![3u8, 0x60];
+    uleb(params.len() as u64, &mut t);
+    t.extend(params);
+    t.push(0);
+    t.extend([0x60, 0, 0, 0x60, 1, 0x7f, 1, 0x7f]);
+    sec(1, t, &mut m);
+    sec(3, vec![3, 1, 2, 0], &mut m);
+    sec(4, vec![3, 0x70, 0, 4, 0x6f, 0, 4, 0x70, 4, 4], &mut m);
+    sec(5, vec![2, 0, 1, 4, 1], &mut m);
+    let mut g = vec![7u8];
+    g.extend([0x7f, 1, 0x41, 0, 0x0b]);
+    g.extend([0x7e, 1, 0x42, 0, 0x0b]);
+    g.extend([0x7d, 1, 0x43, 0, 0, 0, 0, 0x0b]);
+    g.extend([0x7c, 1, 0x44, 0, 0, 0, 0, 0, 0, 0, 0, 0x0b]);
+    g.extend([0x7b, 1, 0xfd, 0x0c]);
+    g.extend([0u8; 16]);
+    g.push(0x0b);
+    g.extend([0x70, 1, 0xd0, 0x70, 0x0b]);
+    g.extend([0x6f, 1, 0xd0, 0x6f, 0x0b]);
+    sec(6, g, &mut m);
+    // export the subject so that the function correspondence is anchored
+    sec(7, vec![1, 1, b's', 0, 2], &mut m);
+    // elem 0: passive funcref [f0] (flag 1); elem 1: passive externref exprs [ref.null extern] (flag 5)
+    sec(9, vec![2, 1, 0, 1, 0, 5, 0x6f, 1, 0xd0, 0x6f, 0x0b], &mut m);
+    sec(12, vec![1], &mut m);
+    let mut code = vec![3u8];
+    for b in [&[0u8, 0x0b][..], &[0, 0x20, 0, 0x0b][..]] {
+        uleb(b.len() as u64, &mut code);
+        code.extend(b);
+    }
+    let mut fb = vec![0u8];
+    fb.extend(body);
+    fb.push(0x0b);
+    uleb(fb.len() as u64, &mut code);
+    code.extend(fb);
+    sec(10, code, &mut m);
+    sec(11, vec![1, 1, 1, 0xaa], &mut m);
+    m
+}
+
+#[derive(Clone, Debug)]
+pub struct Entry {
+    pub op: String,
+    pub class: &'static str,
+    /// opcode bytes followed by the immediate instance (and `end`/`else end` for block ops)
+    pub enc: Vec<u8>,
+    pub params: Vec<u8>,
+    pub drops: usize,
+}
+
+impl Entry {
+    pub fn body(&self) -> Vec<u8> {
+        let mut body = vec![];
+        for (i, _) in self.params.iter().enumerate() {
+            body.push(0x20);
+            body.push(i as u8);
+        }
+        body.extend(&self.enc);
+        for _ in 0..self.drops {
+            body.push(0x1a);
+        }
+        body
+    }
+    pub fn module(&self) -> Vec<u8> {
+        module(&self.params, &self.body())
+    }
+    pub fn coords(&self) -> String {
+        format!("{} [{}] enc={} params={} drops={}", self.op, self.class, wmodel::hex(&self.enc), wmodel::hex(&self.params), self.drops)
+    }
+}
+
+fn memarg(align: u8, mem: u32, offset: u64) -> Vec<u8> {
+    let mut v = vec![];
+    if mem == 0 {
+        v.push(align);
+    } else {
+        v.push(align | 0x40);
+        uleb(mem as u64, &mut v);
+    }
+    uleb(offset, &mut v);
+    v
+}
+
+/// (class, instance bytes); `boundary` selects the full boundary set instead of two per class
+pub fn instances(boundary: bool) -> Vec<(&'static str, Vec<u8>)> {
+    let mut t: Vec<(&'static str, Vec<u8>)> = vec![("none", vec![])];
+    // single index 0..=6 (globals of every type, tables, functions, locals, data/elem, memories)
+    for i in 0..=6u8 {
+        t.push(("idx", vec![i]));
+    }
+    // two indices over {0,1,2}
+    for a in 0..=2u8 {
+        for b in 0..=2u8 {
+            t.push(("idx2", vec![a, b]));
+        }
+    }
+    // memargs
+    let offs32: &[u64] = if boundary { &[0, 1, 1 << 31, (1 << 32) - 1] } else { &[0, (1 << 32) - 1] };
+    let offs64: &[u64] = if boundary { &[0, 1 << 32, (1 << 32) + 4, u64::MAX] } else { &[(1 << 32) + 4] };
+    let aligns: &[u8] = if boundary { &[0, 1, 2, 3, 4] } else { &[0, 1, 2, 3, 4] };
+    for &a in aligns {
+        for &o in offs32 {
+            t.push(("memarg", memarg(a, 0, o)));
+        }
+        for &o in offs64 {
+            t.push(("memarg64", memarg(a, 1, o)));
+        }
+    }
+    // memarg + lane
+    let lanes: &[u8] = if boundary { &[0, 1, 3, 7, 15] } else { &[0, 1] };
+    for &a in aligns.iter().take(4) {
+        for &l in lanes {
+            let mut v = memarg(a, 0, if boundary { (1 << 32) - 1 } else { 8 });
+            v.push(l);
+            t.push(("memarg-lane", v));
+            if boundary {
+                let mut v = memarg(a, 1, (1 << 32) + 4);
+                v.push(l);
+                t.push(("memarg64-lane", v));
+            }
+        }
+    }
+    // lanes
+    for l in [0u8, 1, 3, 7, 15, 16, 31] {
+        t.push(("lane", vec![l]));
+    }
+    // shuffle
+    let ident: Vec<u8> = (0..16).collect();
+    let rev: Vec<u8> = (0..16).rev().map(|x| x + 16).collect();
+    t.push(("shuffle", ident));
+    t.push(("shuffle", rev));
+    t.push(("shuffle", vec![31; 16]));
+    // constants
+    let i32s: &[i64] = if boundary { &[0, -1, i32::MIN as i64, i32::MAX as i64] } else { &[-1, i32::MIN as i64] };
+    for &v in i32s {
+        t.push(("sleb32", sleb_v(v)));
+    }
+    let i64s: &[i64] = if boundary { &[0, -1, i64::MIN, i64::MAX] } else { &[i64::MIN, i64::MAX] };
+    for &v in i64s {
+        t.push(("sleb64", sleb_v(v)));
+    }
+    let f32s: &[u32] = if boundary {
+        &[0, 0x8000_0000, 0x3fc0_0000, 0x7f80_0000, 0xff80_0000, 0x7fc0_0000, 0x7fa0_0000, 0xffc1_2345]
+    } else {
+        &[0x7fa0_0000, 0xffc1_2345]
+    };
+    for &v in f32s {
+        t.push(("f32", v.to_le_bytes().to_vec()));
+    }
+    let f64s: &[u64] = if boundary {
+        &[0, 1 << 63, 0x3ff8 << 48, 0x7ff0 << 48, 0xfff0 << 48, 0x7ff8 << 48, 0x7ff4 << 48, 0xfff8_0000_dead_beef]
+    } else {
+        &[0x7ff4 << 48, 0xfff8_0000_dead_beef]
+    };
+    for &v in f64s {
+        t.push(("f64", v.to_le_bytes().to_vec()));
+    }
+    t.push(("v128", vec![0; 16]));
+    t.push(("v128", vec![0xff; 16]));
+    t.push(("v128", (0..16u8).map(|x| x.wrapping_mul(17).wrapping_add(1)).collect()));
+    // block types + end / else end
+    for bt in [vec![0x40u8], vec![0x7f], vec![0x6f], vec![0x01], vec![0x02]] {
+        let mut a = bt.clone();
+        a.push(0x0b);
+        t.push(("block", a));
+        let mut b = bt.clone();
+        b.extend([0x05, 0x0b]);
+        t.push(("block-else", b));
+    }
+    // br_table
+    t.push(("brtable", vec![1, 0, 0]));
+    t.push(("brtable", vec![0, 0]));
+    t.push(("brtable", vec![3, 0, 0, 0, 0]));
+    // typed select
+    for ty in TYS {
+        t.push(("select-t", vec![1, ty]));
+    }
+    // heap types
+    t.push(("heap", vec![0x70]));
+    t.push(("heap", vec![0x6f]));
+    t
+}
+
+fn decode214(bytes: &[u8]) -> Option<Vec<String>> {
+    let f = wp214::WasmFeatures::all();
+    let mut r = wp214::BinaryReader::new(bytes, 0, f);
+    let mut names = vec![];
+    while !r.eof() {
+        match r.read_operator() {
+            Ok(op) => {
+                let d = format!("{:?}", op);
+                names.push(d.split(|c| c == ' ' || c == '{' || c == '(').next().unwrap().to_string());
+            }
+            Err(_) => return None,
+        }
+        if names.len() > 3 {
+            return None;
+        }
+    }
+    Some(names)
+}
+
+#[derive(Clone, Debug, Default)]
+pub struct Report {
+    pub opcode_candidates: usize,
+    pub instance_count: usize,
+    pub decodable: usize,
+    pub validator_calls: u64,
+    pub accepted_entries: usize,
+    pub accepted_names: Vec<String>,
+    /// names of wasmparser 0.214's operator list that were not accepted, with the reason shown
+    pub not_accepted: BTreeMap<String, String>,
+    /// names neither accepted nor demonstrably feature-rejected (machinery gap)
+    pub unexplained: Vec<String>,
+}
+
+fn tuples() -> Vec<Vec<u8>> {
+    let mut tuples: Vec<Vec<u8>> = vec![vec![]];
+    for a in TYS {
+        tuples.push(vec![a]);
+    }
+    for a in TYS {
+        for b in TYS {
+            tuples.push(vec![a, b]);
+        }
+    }
+    for a in TYS {
+        for b in TYS {
+            for c in TYS {
+                tuples.push(vec![a, b, c]);
+            }
+        }
+    }
+    tuples
+}
+
+/// Decodable candidates: (subject name, class, enc)
+pub fn candidates(boundary: bool) -> (Vec<(String, &'static str, Vec<u8>)>, usize, usize) {
+    let inst = instances(boundary);
+    let mut opcodes: Vec<Vec<u8>> = (0u16..=0xff).filter(|b| ![0xfb, 0xfc, 0xfd, 0xfe].contains(b)).map(|b| vec![b as u8]).collect();
+    for p in [0xfbu8, 0xfc, 0xfd, 0xfe] {
+        for n in 0u64..0x200 {
+            let mut v = vec![p];
+            uleb(n, &mut v);
+            opcodes.push(v);
+        }
+    }
+    let mut out = vec![];
+    let mut seen: BTreeSet<Vec<u8>> = BTreeSet::new();
+    for op in &opcodes {
+        for (class, imm) in &inst {
+            let mut enc = op.clone();
+            enc.extend(imm);
+            if let Some(names) = decode214(&enc) {
+                if names.is_empty() {
+                    continue;
+                }
+                let block = *class == "block" || *class == "block-else";
+                // exactly one operator, or a block opener followed only by else/end
+                let ok = if block {
+                    matches!(names[0].as_str(), "Block" | "Loop" | "If") && names[1..].iter().all(|n| n == "Else" || n == "End") && names.len() >= 2
+                } else {
+                    names.len() == 1
+                };
+                if ok && seen.insert(enc.clone()) {
+                    out.push((names[0].clone(), *class, enc));
+                }
+            }
+        }
+    }
+    (out, opcodes.len(), inst.len())
+}
+
+/// Find a typing (params, drops) under which the reference validator accepts `enc`.
+fn find_typing(enc: &[u8], hint: Option<&(Vec<u8>, usize)>, tuples: &[Vec<u8>], calls: &mut u64) -> Option<(Vec<u8>, usize)> {
+    let try_one = |params: &[u8], drops: usize, calls: &mut u64| -> bool {
+        let mut body = vec![];
+        for (i, _) in params.iter().enumerate() {
+            body.push(0x20);
+            body.push(i as u8);
+        }
+        body.extend(enc);
+        for _ in 0..drops {
+            body.push(0x1a);
+        }
+        *calls += 1;
+        validate214(&module(params, &body), FeatureSet::DEFAULT).is_ok()
+    };
+    if let Some((p, d)) = hint {
+        if try_one(p, *d, calls) {
+            return Some((p.clone(), *d));
+        }
+    }
+    for t in tuples {
+        for drops in 0..3usize {
+            if try_one(t, drops, calls) {
+                return Some((t.clone(), drops));
+            }
+        }
+    }
+    None
+}
+
+/// Run the census on `threads` workers. `per_name` limits the number of entries kept per
+/// operator name (None = every accepted immediate instance).
+pub fn census(boundary: bool, per_name: Option<usize>, threads: usize) -> (Vec<Entry>, Report) {
+    let (cands, n_op, n_inst) = candidates(boundary);
+    let tuples = tuples();
+    let mut rep = Report { opcode_candidates: n_op, instance_count: n_inst, decodable: cands.len(), ..Default::default() };
+    // group by opcode bytes prefix = name, so that the typing found for one instance is the hint for the next
+    let mut by_name: BTreeMap<String, Vec<(&'static str, Vec<u8>)>> = BTreeMap::new();
+    for (n, c, e) in cands {
+        by_name.entry(n).or_default().push((c, e));
+    }
+    let groups: Vec<(String, Vec<(&'static str, Vec<u8>)>)> = by_name.into_iter().collect();
+    let next = std::sync::atomic::AtomicUsize::new(0);
+    let results: std::sync::Mutex<Vec<(usize, Vec<Entry>, u64)>> = std::sync::Mutex::new(vec![]);
+    std::thread::scope(|s| {
+        for _ in 0..threads.max(1) {
+            s.spawn(|| loop {
+                let i = next.fetch_add(1, std::sync::atomic::Ordering::Relaxed);
+                if i >= groups.len() {
+                    break;
+                }
+                let (name, encs) = &groups[i];
+                let mut calls = 0u64;
+                let mut hint: Option<(Vec<u8>, usize)> = None;
+                let mut entries = vec![];
+                let mut per_class: BTreeMap<&'static str, usize> = BTreeMap::new();
+                for (class, enc) in encs {
+                    if let Some(k) = per_name {
+                        if entries.len() >= k && *per_class.get(class).unwrap_or(&0) >= 1 {
+                            continue;
+                        }
+                    }
+                    if let Some((p, d)) = find_typing(enc, hint.as_ref(), &tuples, &mut calls) {
+                        hint = Some((p.clone(), d));
+                        *per_class.entry(class).or_default() += 1;
+                        entries.push(Entry { op: name.clone(), class, enc: enc.clone(), params: p, drops: d });
+                    }
+                }
+                results.lock().unwrap().push((i, entries, calls));
+            });
+        }
+    });
+    let mut res = results.into_inner().unwrap();
+    res.sort_by_key(|r| r.0);
+    let mut entries = vec![];
+    let mut accepted: BTreeSet<String> = BTreeSet::new();
+    for (_, es, calls) in res {
+        rep.validator_calls += calls;
+        for e in es {
+            accepted.insert(e.op.clone());
+            entries.push(e);
+        }
+    }
+    // block templates also exhibit Else and End
+    if accepted.contains("If") {
+        accepted.insert("Else".into());
+    }
+    if accepted.contains("Block") {
+        accepted.insert("End".into());
+    }
+    // completeness cross-check against wasmparser 0.214's own operator list
+    let decodable_names: BTreeMap<String, Vec<u8>> = groups.iter().map(|(n, e)| (n.clone(), e[0].1.clone())).collect();
+    for (name, proposal) in wmodel::validate::ALL_OP_NAMES_214 {
+        if accepted.contains(*name) {
+            continue;
+        }
+        // show a feature reason on a decodable instance
+        let reason = match decodable_names.get(*name) {
+            Some(enc) => {
+                let mut found = None;
+                for t in tuples.iter().take(60) {
+                    let mut body = vec![];
+                    for (i, _) in t.iter().enumerate() {
+                        body.push(0x20);
+                        body.push(i as u8);
+                    }
+                    body.extend(enc);
+                    if let Err(e) = validate214(&module(t, &body), FeatureSet::DEFAULT) {
+                        if e.contains("support is not enabled") || e.contains("not enabled") {
+                            found = Some(e);
+                            break;
+                        }
+                    }
+                }
+                found
+            }
+            None => None,
+        };
+        match reason {
+            Some(r) => {
+                rep.not_accepted.insert(name.to_string(), format!("[{}] {}", proposal, r.split(" (at offset").next().unwrap_or("").to_string()));
+            }
+            None => {
+                // outside the 12 documented proposals by wasmparser's own classification?
+                let outside = matches!(
+                    *proposal,
+                    "exceptions" | "legacy_exceptions" | "gc" | "function_references" | "memory_control" | "shared_everything_threads"
+                );
+                if outside {
+                    rep.not_accepted.insert(name.to_string(), format!("[{}] proposal outside walrus's documented feature set (no decodable instance exhibited)", proposal));
+                } else {
+                    rep.unexplained.push(name.to_string());
+                }
+            }
+        }
+    }
+    rep.accepted_entries = entries.len();
+    rep.accepted_names = accepted.into_iter().collect();
+    (entries, rep)
+}
